@@ -172,11 +172,10 @@ def _ref_port(raw):
     if _PORT.match(text):
         v = int(text)
         return ('ok', v) if v <= 65535 else ('bad',)
-    try:
-        v = int(raw)
-    except ValueError:
-        return ('bad',)
-    return ('gray',) if 0 <= v <= 65535 else ('bad',)
+    if re.match(r'^\d+\Z', text, re.A) and int(text) <= 65535:
+        return ('gray',)          # leading zeros: the specification does not say
+    # anything but decimal digits (sign, underscore, surrounding whitespace - all accepted by int()) is malformed
+    return ('bad',)
 
 
 def ref_v1(data):
@@ -215,16 +214,16 @@ def ref_v2(data):
     fam = data[13] >> 4
     proto = data[13] & 0x0f
     need = {0: 0, 1: 12, 2: 36, 3: 216}.get(fam)
-    gray = cmd > 1 or fam > 3 or proto > 2 or (fam == 0) != (proto == 0)
     addr = data[16:bound]
     if cmd == 0:
-        if gray or (need is not None and n < need):
-            return ('gray', None, None, bound)
+        # LOCAL: the receiver uses the real endpoints and ignores family, transport and the address block
         return ('local', None, None, bound)
-    if need is not None and n < need:
-        return ('gray' if gray and fam > 3 else 'malformed', None, None, bound)
-    if gray:
-        return ('gray', None, None, bound)
+    if cmd != 1:
+        return ('malformed', None, None, bound)       # unassigned command: receivers must reject it
+    if data[13] not in (0x00, 0x11, 0x12, 0x21, 0x22, 0x31, 0x32):
+        return ('malformed', None, None, bound)       # unspecified family / transport combination: must be rejected
+    if n < need:
+        return ('malformed', None, None, bound)
     if fam == 0:
         return ('valid', (None, None), (None, None), bound)
     if fam == 1:
